@@ -103,6 +103,12 @@ CLAIMED = {
         text="The audit walks the operand stack (locals) and globals and every container reachable from them, counts references per object and reports a reference to a non-live object or ref_count < references found; frees of unregistered objects are reported at once. Programs come from progen with aliasing on (values bound to several names, stored in arrays/structs/tuples/unions, passed through and returned from calls, overwritten while aliased, early exits from loops); every fourth program also runs under ASan. Twelve loop bodies that allocate per iteration are run with k = 10, 100, 1000 and the live-object count must not grow by more than 8.",
         note="References held only in C locals of the interpreter between two instructions are invisible to the audit (they can only make ref_count larger than the audited in-degree). The registry is process-global and only active with NANOLANG_VERIF_AUDIT set.",
         design="3/C14"),
+    "C15": dict(
+        category="exploration",
+        technique="rapidcheck round-trip property over the co-process wire codec (in-process, ASan/UBSan) + differential oracle nano_vm vs nano_vm --isolate-ffi on Hypothesis-generated programs that call external functions",
+        text="(a) NanoValue trees (ints incl. boundaries, floats by bit pattern incl. NaN payloads/inf/-0.0, bool, strings up to 70 000 arbitrary non-NUL bytes, opaque, void, nested and empty arrays) must survive serialize/deserialize bit for bit with consumed == written; exact-fit buffers work, one-byte-short and empty buffers and truncated inputs are refused without out-of-bounds access. (b) programs with 2-10 external calls (ctype-style builtins, math builtins, string_from_char, user-declared libc functions in unsafe blocks, strlen on strings from 0 to 70 000 bytes and on UTF-8) print the same bytes and exit with the same status in-process and through nano_cop.",
+        note="Co-process clean-up and fault containment are C16. A run whose in-process version already dies (libc ctype functions on out-of-range ints) is skipped, not judged.",
+        design="3/C15"),
 }
 
 NOT_YET = {
